@@ -321,8 +321,9 @@ Next == ReadHeader \/ ReadTotal \/ ReadEntry \/ SkipLine \/ Finish
 
 -----------------------------------------------------------------------------
 (* The listings TLC enumerates (tiny alphabets; the driver renames letters, *)
-(* draws numbers, dates, owners, permission strings and spacings)           *)
-
+(* draws numbers, dates, owners, permission strings and spacings).  The     *)
+(* families take a parameter on purpose: TLC evaluates every zero-arity     *)
+(* constant definition at start-up, which would build all of them each run. *)
 DateT  == <<"J", "u", "l", " ", " ", "6", " ", "2", "3", ":", "3", "2">>
 DateT2 == <<"J", "u", "l", " ", "1", "6", " ", "0", "3", ":", "0", "5">>
 DateY  == <<"S", "e", "p", " ", "1", "6", " ", " ", "2", "0", "1", "5">>
@@ -413,10 +414,10 @@ RootDocs(n) ==
         : fmt \in Formats}
     \cup {Doc("plain", "parse", <<>>, TRUE, FALSE, <<Dir(<<>>, 7, <<SEnt("-", NmX, "plain")>>)>>)}
 
-Raw(n) == CASE Fam = "entry" -> EntryDocs(N)
-         [] Fam = "pair" -> PairDocs(N)
-         [] Fam \in {"dirs", "dirsz"} -> DirsDocs(N)
-         [] Fam = "root" -> RootDocs(N)
+Raw(n) == CASE Fam = "entry" -> EntryDocs(n)
+         [] Fam = "pair" -> PairDocs(n)
+         [] Fam \in {"dirs", "dirsz"} -> DirsDocs(n)
+         [] Fam = "root" -> RootDocs(n)
 (* the raw families contain sequences with a repeated directory / entry name and symlinks named with an arrow;  *)
 (* everything else about Admits is checked as the invariant Admitted on what is enumerated                      *)
 DistinctNames(x) ==
